@@ -34,7 +34,10 @@ MACROS = {
     'invalid1': r'\"([^\n\r\f\\"]|\\{nl}|{escape})*',
     'invalid2': r"\'([^\n\r\f\\']|\\{nl}|{escape})*",
 
-    'comment': r'\/\*[^*]*\*+([^/][^*]*\*+)*\/',
+    # (as in the CSS grammar: a further part of the comment does not start with
+    # "*" - otherwise a run of stars can be split between "\*+" and the group
+    # in exponentially many ways when the comment is not closed)
+    'comment': r'\/\*[^*]*\*+([^/*][^*]*\*+)*\/',
     'ident': r'[-]?{nmstart}{nmchar}*',
     'name': r'{nmchar}+',
     # TODO???
